@@ -467,7 +467,13 @@ def _flock(fd, operation):
 
     op = ("lock", "flock", rel)
     w.real = (f._hs_real(),) if f is not None else ()
-    w.point(op, pred=free)
+    if operation & fcntl.LOCK_NB:
+        w.point(("lock", "flock-nb", rel))
+        if not free():
+            w.obs(op, "err", _errno.EWOULDBLOCK)
+            raise BlockingIOError(_errno.EWOULDBLOCK, "Resource temporarily unavailable")
+    else:
+        w.point(op, pred=free)
     try:
         REAL["flock"](fd, operation | fcntl.LOCK_NB)
     except OSError as e:
@@ -475,6 +481,18 @@ def _flock(fd, operation):
         raise
     STATE.flocks[fd] = (ino, w.name)
     w.obs(op, "ok")
+
+
+# ----------------------------------------------------------------------------- time
+
+
+def _sleep(seconds):
+    """time.sleep on a controlled thread: no real time passes for the explorers; the sleeper simply lets others run."""
+    w = cur()
+    if w is None or w.abort:
+        return REAL["time.sleep"](seconds)
+    w.real = ()
+    w.point(("lock", "sleep", "-"))
 
 
 # ----------------------------------------------------------------------------- temp names
@@ -514,6 +532,14 @@ class SLock:
             return True
         if not blocking:
             w.point(("lock", "try-acquire", self._id()))
+            if self.owner is not None:
+                return False
+            self.owner = w.name
+            return True
+        if timeout is not None and timeout >= 0:
+            # acquire with a timeout: the deadline may pass at any moment - whenever the scheduler runs this thread
+            # while the lock is still held, the call times out
+            w.point(("lock", "acquire-timeout", self._id()))
             if self.owner is not None:
                 return False
             self.owner = w.name
@@ -592,6 +618,16 @@ class SCond:
             raise RuntimeError("cannot wait on un-acquired lock")
         self.lock.owner = None
         self.waiters.append(w.name)
+        if timeout is not None:
+            # wait with a timeout: the deadline may pass at any moment, so the thread is runnable as soon as the lock is
+            # free; if no notification is there for it by then, the wait has timed out
+            w.point(("lock", "wait-timeout", self.lock._id()), pred=lambda: self.lock.owner is None)
+            t = self._token_for(w.name)
+            if t is not None:
+                self.tokens.remove(t)
+            self.waiters.remove(w.name)
+            self.lock.owner = w.name
+            return t is not None
         w.point(("lock", "wait", self.lock._id()),
                 pred=lambda: self._token_for(w.name) is not None and self.lock.owner is None)
         self.tokens.remove(self._token_for(w.name))
@@ -602,8 +638,10 @@ class SCond:
     def wait_for(self, predicate, timeout=None):
         r = predicate()
         while not r:
-            self.wait()
+            woke = self.wait(timeout)
             r = predicate()
+            if timeout is not None and not woke:
+                break  # deadline passed: threading.Condition.wait_for returns the predicate's value then
         return r
 
     def notify(self, n=1):
@@ -750,6 +788,9 @@ def install(locks=True):
     REAL["io.open"] = io.open
     REAL["flock"] = fcntl.flock
     REAL["nameseq"] = tempfile._name_sequence
+    import time as _time
+    REAL["time.sleep"] = _time.sleep
+    _time.sleep = _sleep
     REAL["fhs.threading"] = fhs.threading
     REAL["fhs.multiprocessing"] = fhs.multiprocessing
     REAL["fhs.atexit"] = fhs.atexit
@@ -786,6 +827,8 @@ def uninstall():
     io.open = REAL["io.open"]
     fcntl.flock = REAL["flock"]
     tempfile._name_sequence = REAL["nameseq"]
+    import time as _time
+    _time.sleep = REAL["time.sleep"]
     fhs.threading = REAL["fhs.threading"]
     fhs.multiprocessing = REAL["fhs.multiprocessing"]
     fhs.atexit = REAL["fhs.atexit"]
